@@ -243,6 +243,126 @@ def _rec3(n, log, fq):
             _rec3(c, log, fq)
 
 
+def _chain_links(n):
+    """[(var node, int value, then-branch)] + final else (or None) for  if(v == k0) A else if(v == k1) B ... [else Z]"""
+    from .cxfe import raw_kids
+    links, cur, var = [], n, None
+    while cur is not None and cur.get("kind") == "IfStmt":
+        p = raw_kids(cur)
+        c = strip(p[0], casts=True)
+        if not (c.get("kind") == "BinaryOperator" and c.get("opcode") == "=="):
+            return None
+        a, b = [strip(x, casts=True) for x in kids(c)]
+        if b.get("kind") != "IntegerLiteral":
+            a, b = b, a
+        if b.get("kind") != "IntegerLiteral" or a.get("kind") not in ("DeclRefExpr", "MemberExpr"):
+            return None
+        key = (a.get("kind"), a.get("name"), a.get("referencedDecl", {}).get("id"))
+        if var is None:
+            var = (key, a)
+        elif var[0] != key:
+            return None
+        links.append((int(b["value"]), p[1]))
+        cur = p[2] if len(p) > 2 and p[2] else None
+    if len(links) < 3 or len({k for k, _ in links}) != len(links):
+        return None
+    return var[1], links, cur
+
+
+def _switch_block(blk, log, fq):
+    """an if / else-if chain that compares one integer variable with distinct constants is the `switch` it spells out"""
+    inner = blk.get("inner") or []
+    for i, st in enumerate(inner):
+        if st and st.get("kind") == "IfStmt":
+            ch = _chain_links(st)
+            if ch is None:
+                continue
+            var, links, last = ch
+            assigned = _assigned_names([b for _, b in links])
+            if var.get("referencedDecl", {}).get("id") in assigned:
+                continue
+            body = []
+            for k, b in links:
+                lit = {"kind": "IntegerLiteral", "value": str(k), "type": {"qualType": "int"}, "range": st.get("range", {})}
+                body.append({"kind": "CaseStmt", "inner": [{"kind": "ConstantExpr", "inner": [lit], "type": {"qualType": "int"},
+                                                           "range": st.get("range", {})}, b], "range": b.get("range", {})})
+                body.append({"kind": "BreakStmt", "range": b.get("range", {})})
+            if last is not None:
+                body.append({"kind": "DefaultStmt", "inner": [last], "range": last.get("range", {})})
+                body.append({"kind": "BreakStmt", "range": last.get("range", {})})
+            inner[i] = {"kind": "SwitchStmt", "range": st.get("range", {}), "loc": st.get("loc", {}),
+                        "inner": [copy.deepcopy(var), {"kind": "CompoundStmt", "inner": body, "range": st.get("range", {})}]}
+            log.append((fq, var.get("name") or var.get("referencedDecl", {}).get("name"), "if-chain read as a switch"))
+    for c in inner:
+        if c:
+            _rec4(c, log, fq)
+
+
+def _rec4(n, log, fq):
+    if n.get("kind") == "CompoundStmt":
+        _switch_block(n, log, fq)
+        return
+    for c in n.get("inner", []) or []:
+        if c:
+            _rec4(c, log, fq)
+
+
+_rf = [0]
+
+
+def _rangefor(n, log, fq):
+    """for(T & x : C) body   ->   for(int k = 0; k < C.size(); k++) { T & x = C[k]; body }   for a container named by a plain
+    variable or member (the reference form is then written out by the alias pass)"""
+    for c in n.get("inner", []) or []:
+        if c:
+            _rangefor(c, log, fq)
+    if n.get("kind") != "CXXForRangeStmt":
+        return
+    raw = n.get("inner") or []
+    if len(raw) != 8 or raw[1] is None or raw[6] is None or raw[7] is None:
+        return
+    rdecl = kids(raw[1])[0] if kids(raw[1]) else None
+    if rdecl is None or not kids(rdecl):
+        return
+    cont = strip(kids(rdecl)[-1], casts=True)
+    if cont.get("kind") not in ("DeclRefExpr", "MemberExpr"):
+        return
+    lv = kids(raw[6])[0] if kids(raw[6]) else None
+    if lv is None or lv.get("kind") != "VarDecl":
+        return
+    _rf[0] += 1
+    kid = "rf%d" % _rf[0]
+    rng = n.get("range", {})
+    kdecl = {"kind": "VarDecl", "id": kid, "name": "__k%d" % _rf[0], "type": {"qualType": "int"}, "init": "c", "range": rng,
+             "loc": rng.get("begin", {}),
+             "inner": [{"kind": "IntegerLiteral", "value": "0", "type": {"qualType": "int"}, "range": rng}]}
+
+    def kref():
+        return {"kind": "DeclRefExpr", "type": {"qualType": "int"}, "range": rng,
+                "referencedDecl": {"id": kid, "kind": "VarDecl", "name": "__k%d" % _rf[0], "type": {"qualType": "int"}}}
+    size = {"kind": "CXXMemberCallExpr", "type": {"qualType": "size_t"}, "range": rng,
+            "inner": [{"kind": "MemberExpr", "name": "size", "type": {"qualType": "<bound member function type>"}, "range": rng,
+                       "inner": [copy.deepcopy(cont)]}]}
+    cond = {"kind": "BinaryOperator", "opcode": "<", "type": {"qualType": "bool"}, "range": rng, "inner": [kref(), size]}
+    inc = {"kind": "UnaryOperator", "opcode": "++", "isPostfix": True, "type": {"qualType": "int"}, "range": rng, "inner": [kref()]}
+    ety = lv.get("type", {}).get("qualType", "double").replace("&", "").replace("const ", "").strip()
+    elem = {"kind": "CXXOperatorCallExpr", "type": {"qualType": ety}, "valueCategory": "lvalue", "range": rng,
+            "inner": [{"kind": "ImplicitCastExpr", "type": {"qualType": "fn"}, "range": rng,
+                       "inner": [{"kind": "DeclRefExpr", "type": {"qualType": "fn"}, "range": rng,
+                                  "referencedDecl": {"id": "op[]", "kind": "CXXMethodDecl", "name": "operator[]"}}]},
+                      copy.deepcopy(cont), kref()]}
+    lv2 = copy.copy(lv)
+    lv2["inner"] = [elem]
+    lv2["init"] = "c"
+    body = raw[7]
+    stmts = kids(body) if body.get("kind") == "CompoundStmt" else [body]
+    nb = {"kind": "CompoundStmt", "range": body.get("range", rng),
+          "inner": [{"kind": "DeclStmt", "range": rng, "inner": [lv2]}] + list(stmts)}
+    n["kind"] = "ForStmt"
+    n["inner"] = [{"kind": "DeclStmt", "range": rng, "inner": [kdecl]}, None, cond, inc, nb]
+    log.append((fq, lv.get("name"), "range-for written as an index loop"))
+
+
 def _rec2(n, log, fq):
     if n.get("kind") == "CompoundStmt":
         _forward_block(n, log, fq)
@@ -256,7 +376,9 @@ def run(tu):
     log = []
     for f in tu.all_fns():
         if f.body is not None:
+            _rangefor(f.body, log, f.qual)
             _rec3(f.body, log, f.qual)
+            _rec4(f.body, log, f.qual)
             _rec(f.body, log, f.qual)
             _rec2(f.body, log, f.qual)
     return log
